@@ -504,8 +504,12 @@ func c12AlwaysDiffs(c *Ctx) {
 	}
 	name := core.FuncName(fn)
 	c.R.SawFunc(name)
+	isStart := func(in ssa.Instruction) bool {
+		cl, ok := in.(ssa.CallInstruction)
+		return ok && an.CalleeIs(cl, kvPkg, "DB", "StartDiff")
+	}
 	h := an.THooks{Instr: func(in ssa.Instruction, st an.TState) an.TState {
-		if cl, ok := in.(ssa.CallInstruction); ok && an.CalleeIs(cl, kvPkg, "DB", "StartDiff") {
+		if isStart(in) || callsOneThatAlwaysDoes(c, in, isStart, 0) {
 			return ansState(true)
 		}
 		return st
@@ -520,4 +524,42 @@ func c12AlwaysDiffs(c *Ctx) {
 		}
 	}
 	c.R.Cond(good, rule, name+": every cursor comes from StartDiff", c.P.Pos(fn.Pos()), "no successful return bypasses StartDiff", why)
+}
+
+
+// alwaysDoes: every possibly-successful return of fn lies behind an instruction accepted by pred —
+// directly, or through a call of a repository function of which the same holds (bounded depth). Used
+// for helpers that have several callers and are therefore not part of a Scope.
+func alwaysDoes(c *Ctx, fn *ssa.Function, pred func(ssa.Instruction) bool, depth int) bool {
+	if fn == nil || len(fn.Blocks) == 0 || depth > 3 {
+		return false
+	}
+	h := an.THooks{Instr: func(in ssa.Instruction, st an.TState) an.TState {
+		if pred(in) || callsOneThatAlwaysDoes(c, in, pred, depth+1) {
+			return ansState(true)
+		}
+		return st
+	}}
+	exits := an.WalkTypestate(fn, ansState(false), h, c.Scope(fn))
+	if len(exits) == 0 {
+		return false
+	}
+	for _, ex := range exits {
+		if ex.ErrNil != 0 && !bool(ex.St.(ansState)) {
+			return false
+		}
+	}
+	return true
+}
+
+func callsOneThatAlwaysDoes(c *Ctx, in ssa.Instruction, pred func(ssa.Instruction) bool, depth int) bool {
+	cl, ok := in.(ssa.CallInstruction)
+	if !ok {
+		return false
+	}
+	cal := cl.Common().StaticCallee()
+	if cal == nil || !strings.HasPrefix(an.PkgPathOf(cal), core.ModPath) || cal == in.Parent() {
+		return false
+	}
+	return alwaysDoes(c, cal, pred, depth)
 }
